@@ -12,7 +12,10 @@ ExpMicM(e, which, msg) ==
   LET f == e.frame  da == Rev(f.devaddr) IN
   CASE which = "up" -> MicUp(e.ver, f.fctrl.ack, e.conf, e.txdr, e.txch, e.fkey, e.skey, da, f.fcnt, msg)
     [] which = "down" -> MicDown(e.ver, f.fctrl.ack, e.conf, e.skey, da, f.fcnt, msg)
-ExpMic(e, which) == ExpMicM(e, which, Msg(e.frame))
+\* events recorded from a RECEIVED byte string carry it as `raw`: the authenticated bytes are the received ones
+\* (MHDR with its reserved bits as they arrived), not a re-encoding of the decoded value
+MsgOf(e) == IF "raw" \in DOMAIN e THEN SubSeq(e.raw, 1, Len(e.raw) - 4) ELSE Msg(e.frame)
+ExpMic(e, which) == ExpMicM(e, which, MsgOf(e))
 
 SetMicFails(e) ==
   IF ~FrameOK(e.frame) THEN <<>>
@@ -23,7 +26,7 @@ ValidateFails(e) ==
   IF ~FrameOK(e.frame) THEN <<>>
   ELSE IF e.err # "" THEN <<"C02.validate">>
   ELSE LET f == e.frame
-           exp == IF e.which = "upF" THEN SubSeq(f.mic, 3, 4) = MicUpF(e.fkey, Rev(f.devaddr), f.fcnt, Msg(f))
+           exp == IF e.which = "upF" THEN SubSeq(f.mic, 3, 4) = MicUpF(e.fkey, Rev(f.devaddr), f.fcnt, MsgOf(e))
                   ELSE f.mic = ExpMic(e, e.which)
        IN  IF e.ok = exp THEN <<>> ELSE <<"C02.validate">>
 
